@@ -1606,8 +1606,10 @@ def apply_fault(doc, f):
         new = []
         if f[1] == 'close':
             root = f[2]
-            while root in par:
+            seen = {root}
+            while root in par and par[root] not in seen:      # the document may already carry a cycle (fault pairs)
                 root = par[root]
+                seen.add(root)
             new.append({'rels': ['encapsulation'], 'refs': [[f[2], [[root, []]]]]})
         elif f[1] == 'self':
             new.append({'rels': ['encapsulation'], 'refs': [[f[2], [[f[2], []]]]]})
